@@ -5,16 +5,17 @@
 # usage: ./selftest_determinism.sh "C01 C07" 20
 cd "$(dirname "$0")"
 PROPS="${1:-C01 C02 C07}"; N="${2:-12}"
-fail=0
+F=$(mktemp); fail=0
 for p in $PROPS; do
   for s in $(seq 1 $N); do
     ref=""
     for g in 1 4 16 1; do
       out=$(GOMAXPROCS=$g ./bin/fxsim run -prop $p -seed $((s*7919)) | sed 's/  ([0-9.a-zµ]*)$//' | md5sum)
-      if [ -z "$ref" ]; then ref="$out"; elif [ "$ref" != "$out" ]; then echo "NONDETERMINISTIC prop=$p seed=$((s*7919)) gomaxprocs=$g"; fail=1; fi
+      if [ -z "$ref" ]; then ref="$out"; elif [ "$ref" != "$out" ]; then echo "NONDETERMINISTIC prop=$p seed=$((s*7919)) gomaxprocs=$g"; echo x >> $F; fi
     done
   done &
 done
 wait
+[ -s $F ] && fail=1; rm -f $F
 [ $fail = 0 ] && echo "determinism ok: $PROPS x $N seeds x 4 processes"
 exit $fail
